@@ -33,6 +33,9 @@ PROFILES: List[Tuple[str, float, Dict[str, Any]]] = [
     ('cyclic',    3, dict(reexport=0.3, cyclic=True, roots=(1, 2))),
     ('cyclic-star', 1, dict(reexport=0.2, cyclic=True, star=0.6, roots=(1, 2))),
     ('multi',     1, dict(reexport=0.7, multi_reexport=True, roots=(1, 3))),
+    ('zope',      1, dict(reexport=0.3, zope=1.0, roots=(1, 2))),
+    ('docassign', 1, dict(reexport=0.3, docassign=0.7, roots=(1, 2))),
+    ('dups',      1, dict(reexport=0.4, dup=0.5, roots=(1, 2))),
 ]
 
 
@@ -45,7 +48,8 @@ def pick_profile(rng: Rng) -> Tuple[str, Dict[str, Any]]:
 
 
 def plan(tier: str, seed: int) -> Dict[str, Any]:
-    n = 400 if tier == 'quick' else 20000
+    import os
+    n = int(os.environ.get('VERIF_TASKS') or 0) or (1200 if tier == 'quick' else 40000)
     tasks = [{'i': i, 'seed': derive(seed, PROPERTY, i), 'limit': 720 if tier == 'thorough' else 120,
               'nsample': 24 if tier == 'thorough' else 10} for i in range(n)]
     return {'tasks': tasks, 'budget_s': 75 if tier == 'quick' else 1500, 'task_timeout': 120, 'selfcheck': 6}
@@ -77,7 +81,9 @@ def project(d: Dict[str, Dict[str, Any]], roots: Set[str]) -> Dict[str, Dict[str
             continue
         r = dict(rec)
         if 'mro' in r:
-            r['mro'] = [('unresolved' if (x.startswith('ext:') and x[4:].split('.')[0] in roots) else x) for x in r['mro']]
+            # names of the project that pydoctor could not resolve are not classes: the
+            # statement speaks of resolved bases and linearisations
+            r['mro'] = [x for x in r['mro'] if not (x.startswith('ext:') and x[4:].split('.')[0] in roots)]
         r.pop('rawbases', None)
         out[i] = r
     return out
@@ -112,7 +118,12 @@ def compare(world: Dict[str, Any], ref: Dict[str, Any], other: Dict[str, Any],
                 diffs.append(('presence', i, a and a['location'], b and b['location']))
             continue
         if i in bases_diff:
-            diffs.append(('bases', i, a['bases'], b['bases']))
+            if len(a['bases']) == len(b['bases']):
+                for j, (x, y) in enumerate(zip(a['bases'], b['bases'])):
+                    if x != y:
+                        diffs.append((f'bases#{j}', i, x, y))
+            else:
+                diffs.append(('bases', i, a['bases'], b['bases']))
         elif a.get('mro') != b.get('mro'):
             anc = set(a['mro']) | set(b['mro'])
             if not (anc & bases_diff):
@@ -138,36 +149,76 @@ def compare(world: Dict[str, Any], ref: Dict[str, Any], other: Dict[str, Any],
 
 
 def signature(world: Dict[str, Any], idx: Dict[int, Any], attr: str, ident: str, a: Any, b: Any,
-              partial: bool) -> str:
+              partial: str) -> str:
+    """Name the invariant and the shape of the failing case (root-cause class)."""
+    from sim.oracles import _direct
     truth = world['truth']
     tags: List[str] = []
     cyc = 1 if truth['cyclic'] else 0
+    j = None
+    if attr.startswith('bases#'):
+        j = int(attr[6:])
+        attr = 'bases'
+
+    def moved_tag(i: Optional[int]) -> str:
+        if i is None:
+            return '?'
+        n = len(truth['reexporters'].get(str(top_id(world, i)), []))
+        return 'stays' if n == 0 else 'moved' if n == 1 else 'moved-multi'
+
     if attr in ('bases', 'mro') and ident.startswith('M') and int(ident[1:]) in idx:
         modname, scope, st = idx[int(ident[1:])]
-        self_moved = bool(truth['reexporters'].get(str(top_id(world, st['id']))))
-        routes = []
-        tmoved = []
-        if attr == 'bases' and isinstance(a, list) and isinstance(b, list) and len(a) == len(b) == len(st.get('bases', [])):
-            for j, (x, y) in enumerate(zip(a, b)):
-                if x != y:
-                    ref = st['bases'][j]
-                    routes.append(ref.get('route', '?'))
-                    if ref.get('id') is not None:
-                        tmoved.append(bool(truth['reexporters'].get(str(top_id(world, ref['id'])))))
-        tags.append('route=' + '+'.join(sorted(set(routes))) if routes else 'route=?')
-        tags.append('target=' + ('moved' if tmoved and all(tmoved) else 'stays' if tmoved and not any(tmoved) else 'mixed' if tmoved else '?'))
-        tags.append('self=' + ('moved' if self_moved else 'stays'))
+        if attr == 'bases' and j is not None and j < len(st.get('bases', [])):
+            ref = st['bases'][j]
+            tags.append('route=' + str(ref.get('route', '?')))
+            tags.append('target=' + ('ext' if ref.get('ext') else moved_tag(ref.get('id'))))
+            tags.append('self=' + moved_tag(st['id']))
+            tags.append('reach=' + ('?' if ref.get('id') is None else 'direct' if _direct(world, modname, ref) else 'chain'))
+        else:
+            tags.append('self=' + moved_tag(st['id']))
     elif attr in ('kind', 'docstring', 'type', 'location', 'presence') and ident.startswith('M') and int(ident[1:]) in idx:
         modname, scope, st = idx[int(ident[1:])]
         tags.append('what=' + st['k'])
-        tags.append('self=' + ('moved' if truth['reexporters'].get(str(top_id(world, st['id']))) else 'stays'))
+        tags.append('self=' + moved_tag(st['id']))
         if attr == 'kind':
             tags.append(f'{a}->{b}' if str(a) < str(b) else f'{b}->{a}')
+            if st['k'] == 'class':
+                # zope: is an interface among the ancestors, and by which route is it reached?
+                routes = set()
+                seen = set()
+                stack = [st['id']]
+                while stack:
+                    c = stack.pop()
+                    if c in seen or c not in idx:
+                        continue
+                    seen.add(c)
+                    cm, _, cst = idx[c]
+                    for ref in cst.get('bases', []):
+                        if ref.get('id') is not None and truth['defs'][str(ref['id'])].get('iface'):
+                            routes.add(str(ref.get('route')))
+                        if ref.get('id') is not None:
+                            stack.append(ref['id'])
+                if routes:
+                    tags.append('iface-base-via=' + '+'.join(sorted(routes)))
+        if attr == 'docstring':
+            targets = {s2['target'].get('id') for m in world['modules'].values() for _, s2 in W.iter_stmts(m['body'])
+                       if s2['k'] == 'docassign'}
+            if st['id'] in targets:
+                routes = sorted({str(s2['target'].get('route')) for m in world['modules'].values()
+                                 for _, s2 in W.iter_stmts(m['body'])
+                                 if s2['k'] == 'docassign' and s2['target'].get('id') == st['id']})
+                tags.append('docassign-via=' + '+'.join(routes))
+                reach = set()
+                for mn, m in world['modules'].items():
+                    for _, s2 in W.iter_stmts(m['body']):
+                        if s2['k'] == 'docassign' and s2['target'].get('id') == st['id']:
+                            reach.add('direct' if _direct(world, mn, s2['target']) else 'chain')
+                tags.append('reach=' + '+'.join(sorted(reach)))
     else:
         tags.append('what=' + ident.split(':')[0])
     tags.append(f'cyclic={cyc}')
     if partial:
-        tags.append('partial-read')
+        tags.append(partial)
     return f'{PROPERTY}/{attr}/' + ','.join(tags)
 
 
@@ -181,6 +232,8 @@ def run_world(world: Dict[str, Any], scheds: Sequence[Sequence[str]]) -> Dict[st
     roots = _roots(world)
     idx = index_world(world)
     cyclic = world['truth']['cyclic']
+    star_sources = {st['mod'] for m in world['modules'].values() for _, st in W.iter_stmts(m['body'])
+                    if st['k'] == 'from' and st['names'] == '*'}
     ref = None
     ref_sched: Optional[Sequence[str]] = None
     violations: Dict[str, Dict[str, Any]] = {}
@@ -195,8 +248,9 @@ def run_world(world: Dict[str, Any], scheds: Sequence[Sequence[str]]) -> Dict[st
         system, out, exc = simsystem.build(texts, pkgs, sc)
         iid = simsystem.interleaving_id(system.sim_log)
         inter.add(iid)
-        partial = any(e[0] == 'partial' for e in system.sim_log)
-        partial_any |= partial
+        partial_mods = {e[1] for e in system.sim_log if e[0] == 'partial'}
+        partial = 'star-from-partial' if (partial_mods & star_sources) else ('partial-read' if partial_mods else '')
+        partial_any |= bool(partial_mods)
         # probes
         proc = set()
         for e in system.sim_log:
@@ -226,7 +280,7 @@ def run_world(world: Dict[str, Any], scheds: Sequence[Sequence[str]]) -> Dict[st
             ref, ref_sched, ref_partial = d, sc, partial
             continue
         for attr, ident, a, b in compare(world, ref, d, cyclic):
-            sig = signature(world, idx, attr, ident, a, b, partial or ref_partial)
+            sig = signature(world, idx, attr, ident, a, b, max(partial, ref_partial, key=len))
             if sig not in violations:
                 violations[sig] = {
                     'signature': sig,
